@@ -10,6 +10,9 @@ ASSUMPTIONS = [
     "storage backend for the crash replay is MemStore; on the persistent backends (SQLite file, LMDB) a real group handles a request stream (two keyspaces, ids "
     "from 0 to 2^64-1, 5 000 consecutive ids in one bulk call), the process ends between requests, and a fresh process rebuilds the sets from the files "
     "(Trace_Restart.tla); the backends' call-by-call fidelity is C17's subject",
+    "the node killed at any moment: a writer process over SQLite (file) / LMDB logs `try` before and `ack` after every request (single and bulk, up to "
+    "3 000 documents in one call, ids up to 2^64-1) and gets SIGKILL after a random delay; a fresh process rebuilds; Trace_Crash.tla: rebuilt set = storage's "
+    "metadata, per document the operation acknowledged last or the in-flight request's effect, nothing else (SIGKILL keeps what the OS has; power loss is out of reach)",
     "'visible' = the key holds the acknowledged operation or a newer one; an acknowledged delete (and what it superseded) may have been purged",
     "convergence of the restarted node with its peers is covered by the Cluster model (C01), not here",
 ]
@@ -45,11 +48,101 @@ def persistent_backends(ctx):
     return {"restarts": n, "rebuilt_sets_that_differ": len(tv["fails"])}
 
 
+def killed_backends(ctx):
+    """The node is stopped at ANY moment: a writer process over SQLite (file) / LMDB logs `try` before and `ack` after every request
+    and is killed (SIGKILL) after a random delay - between two requests or in the middle of one; a fresh process rebuilds the sets.
+    Trace_Crash.tla: the rebuilt set is what storage holds, and per document the operation acknowledged last (or the effect of the one
+    request that was in flight) is there, nothing else."""
+    import json
+    import os
+    import random
+    import shutil
+    import signal
+    import subprocess
+    import time
+    binary = vlib.build_harness(ctx, "h-ec")
+    trace = ctx.path("crash.ndjson")
+    rng = random.Random(ctx.seed * 7919 + 13)
+    kills = 8 if ctx.tier == "quick" else 60
+    acks_total = 0
+    mid_request = 0
+    with open(trace, "w") as f:
+        for i in range(kills):
+            for backend in ("sqlite", "lmdb"):
+                d = "/dev/shm/verif-crash-%d-%d-%s" % (ctx.seed, i, backend)
+                log = d + ".ack.log"
+                shutil.rmtree(d, ignore_errors=True)
+                if os.path.exists(log):
+                    os.remove(log)
+                p = subprocess.Popen([binary, "restart-backends", "--phase", "killwrite", "--backend", backend, "--dir", d, "--log", log,
+                                      "--seed", str(ctx.seed * 1000 + i)], stdout=subprocess.PIPE, stderr=subprocess.DEVNULL, text=True, cwd=ctx.work)
+                line = p.stdout.readline()
+                if line.strip() != "ready":
+                    p.kill()
+                    raise vlib.ToolError("the writer process did not start (%r)" % line)
+                time.sleep(rng.choice([0.0, 0.003, 0.01, 0.03, 0.08, 0.2, 0.5]) + rng.random() * 0.05)
+                if p.poll() is not None:
+                    # the code under test died by itself while handling requests: data, judged like a kill
+                    pass
+                else:
+                    p.send_signal(signal.SIGKILL)
+                p.wait()
+                lines = [l for l in open(log).read().splitlines() if l.startswith("{") and l.endswith("}")] if os.path.exists(log) else []
+                tries = sum(1 for l in lines if '"ev":"try"' in l)
+                acks = sum(1 for l in lines if '"ev":"ack"' in l)
+                acks_total += acks
+                mid_request += 1 if tries > acks else 0
+                f.write("".join(l + "\n" for l in lines))
+                out = vlib.run_harness(ctx, [binary, "restart-backends", "--phase", "killload", "--backend", backend, "--dir", d], timeout=1200)
+                f.write("".join(l + "\n" for l in out.splitlines() if l.startswith("{")))
+                f.write(json.dumps({"ev": "reset", "backend": backend, "ks": ""}) + "\n")
+                shutil.rmtree(d, ignore_errors=True)
+                os.remove(log) if os.path.exists(log) else None
+    tv = vlib.validate_trace(ctx, "Trace_Crash", {}, trace, "trace_crash", invariants=["Report"], timeout=1800, xmx="6g")
+    if tv["rejected"] is not None:
+        raise vlib.ToolError("trace validation stopped early: %s" % tv["rejected"])
+    if acks_total == 0 or mid_request == 0:
+        raise vlib.ToolError("vacuous: %d acknowledged requests, %d kills in the middle of a request" % (acks_total, mid_request))
+    ctx.log("persistent backends, killed at a random moment: %d kills (%d in the middle of a request), %d acknowledged requests: %d rejected" % (
+        2 * kills, mid_request, acks_total, len(tv["fails"])))
+    all_lines = open(trace).read().splitlines()
+    for e in tv["fails"][:3]:
+        # for the replay file (diagnostics only, the verdict is TLC's): the run this event belongs to, the request in flight, what differs
+        start = max([j for j in range(e["line"] - 1) if '"ev": "reset"' in all_lines[j]] + [-1]) + 1
+        run = [json.loads(x) for x in all_lines[start:e["line"]]]
+        ev = run[-1]
+        acked, pend = {}, None
+        for r in run[:-1]:
+            if r["ev"] == "try":
+                pend = r
+            elif r["ev"] == "ack" and pend is not None:
+                if (pend["backend"], pend["ks"]) == (ev["backend"], ev["ks"]):
+                    for i, ent in pend["eff"].items():
+                        acked[i] = (pend["kind"], ent)
+                pend = None
+        there = set(ev.get("live", [])) | set(ev.get("dead", []))
+        in_flight = pend if pend is not None and (pend["backend"], pend["ks"]) == (ev["backend"], ev["ks"]) else None
+        missing = [ent for i, (k, ent) in acked.items() if ent not in there and not (in_flight and i in in_flight["eff"])]
+        e = dict(e, kill_index=sum(1 for x in all_lines[:start] if '"ev": "reset"' in x), acknowledged_in_this_keyspace=len(acked),
+                 acknowledged_but_not_there=missing[:10],
+                 in_flight=None if in_flight is None else {"kind": in_flight["kind"], "n": in_flight["n"], "documents": len(in_flight["eff"])},
+                 set_vs_storage={"live_only_in_set": sorted(set(ev.get("live", [])) - set(ev.get("meta_live", [])))[:5],
+                                 "live_only_in_storage": sorted(set(ev.get("meta_live", [])) - set(ev.get("live", [])))[:5],
+                                 "dead_only_in_set": sorted(set(ev.get("dead", [])) - set(ev.get("meta_dead", [])))[:5],
+                                 "dead_only_in_storage": sorted(set(ev.get("meta_dead", [])) - set(ev.get("dead", [])))[:5]},
+                 started=ev.get("started"), unreadable=ev.get("unreadable"))
+        ctx.violations.append({"engine": "h-ec restart-backends (SIGKILL) + Trace_Crash", "event": e,
+                               "why": ["after a kill the rebuilt set is not what storage holds, or an acknowledged operation is not visible, or "
+                                       "something nobody asked for is there"]})
+    return {"kills": 2 * kills, "kills_mid_request": mid_request, "acknowledged_requests": acks_total, "rejected": len(tv["fails"])}
+
+
 def run(ctx):
     results = keyspace_model.run_all(ctx)
     cov = keyspace_model.judge(ctx, results, "C07")
     cov["persistent_backends"] = persistent_backends(ctx)
-    cov["traces_validated_against_impl"] += cov["persistent_backends"]["restarts"]
+    cov["killed_backends"] = killed_backends(ctx)
+    cov["traces_validated_against_impl"] += cov["persistent_backends"]["restarts"] + cov["killed_backends"]["kills"]
     return vlib.finish(ctx, "model_checking", cov, ASSUMPTIONS)
 
 
